@@ -38,21 +38,132 @@ def worker_setup(env):
     http_adapter.setup()
 
 
+def run_overlap(case):
+    """'keeps answering concurrent requests': n requests are held inside their handlers until one more request,
+    sent while they are all in progress, has been served (or a real-time limit passes)"""
+    import http as _http
+    import io
+    import socket
+    import threading
+    import time
+    import http_adapter as A
+    A.setup()
+    from vinegar.http.server import HttpRequestHandler, HttpServer
+    n = case["waiters"]
+    entered = threading.Semaphore(0)
+    release = threading.Event()
+    saw = []
+
+    class Hd(HttpRequestHandler):
+        def can_handle(self, uri, context):
+            return True
+
+        def handle(self, request_info, body, context):
+            if request_info.uri.startswith("/wait"):
+                entered.release()
+                saw.append(release.wait(case.get("limit_s", 6.0)))
+                return (_http.HTTPStatus.OK, {"Content-Type": "text/plain"}, io.BytesIO(b"waited"))
+            release.set()
+            return (_http.HTTPStatus.OK, {"Content-Type": "text/plain"}, io.BytesIO(b"pong"))
+
+    bind = "::1"
+    port = A.pick_port(bind)
+    srv = HttpServer([Hd()], bind, port)
+    srv.start()
+    out = {"ping": None, "waits": []}
+
+    def get(path, timeout):
+        s = socket.create_connection((bind, port), timeout=timeout)
+        try:
+            s.settimeout(timeout)
+            s.sendall(b"GET " + path + b" HTTP/1.0\r\n\r\n")
+            data = b""
+            while True:
+                chunk = s.recv(65536)
+                if not chunk:
+                    break
+                data += chunk
+            return data
+        finally:
+            s.close()
+
+    results = [None] * n
+
+    def waiter(i):
+        try:
+            results[i] = get(b"/wait/%d" % i, 20.0)
+        except Exception as e:  # noqa
+            results[i] = repr(e).encode()
+
+    ths = [threading.Thread(target=waiter, args=(i,)) for i in range(n)]
+    try:
+        for t in ths:
+            t.start()
+        # the first waiter must be inside its handler before the ping is sent
+        got_in = entered.acquire(timeout=10.0)
+        t0 = time.monotonic()
+        try:
+            ping = get(b"/ping", case.get("limit_s", 6.0) - 1.0)
+            out["ping"] = ping.endswith(b"pong")
+        except Exception as e:  # noqa
+            out["ping"] = False
+            out["ping_error"] = repr(e)
+        out["ping_s"] = round(time.monotonic() - t0, 2)
+        release.set()
+        for t in ths:
+            t.join(25.0)
+        out["entered"] = got_in
+        out["waits"] = [bool(r and r.endswith(b"waited")) for r in results]
+        out["released_by_ping"] = list(saw)
+    finally:
+        try:
+            srv.stop()
+        finally:
+            A.hygiene_close(srv)
+    return out
+
+
 def run_impl(case, env):
+    if case.get("kind") == "overlap":
+        return run_overlap(case)
     return H.run_impl_http(case)
 
 
 def model_requests(case, obs):
+    if case.get("kind") == "overlap":
+        return []
     return H.model_requests_http(case, obs)
 
 
 def judge(case, obs, responses):
+    if case.get("kind") == "overlap":
+        from core import Judgement
+        if "harness_exception" in obs or not obs.get("entered"):
+            return Judgement(case, True, False, {"infrastructure": obs}, kind="infra", nontrivial=False)
+        ok = bool(obs.get("ping")) and all(obs.get("waits", [False])) and all(obs.get("released_by_ping", [False]))
+        return Judgement(case, ok, ok, None if ok else obs, kind="overlap", nontrivial=True,
+                         failed_clause=None if ok else "concurrent_request_not_served")
     return H.judge_http(case, obs, responses, prop="C03")
 
 
-shrink = H.shrink_http
-neighbours = H.neighbours_http
-signature = H.signature_http
+def shrink(case):
+    if case.get("kind") == "overlap":
+        if case["waiters"] > 1:
+            yield dict(case, waiters=case["waiters"] - 1)
+        return
+    yield from H.shrink_http(case)
+
+
+def neighbours(case, rng):
+    if case.get("kind") == "overlap":
+        return iter(())
+    return H.neighbours_http(case, rng)
+
+
+def signature(case, j):
+    if case.get("kind") == "overlap":
+        return {"clause": j.failed_clause, "kind": "overlap"}
+    return H.signature_http(case, j)
 
 
 def followups(rng, i):
@@ -67,6 +178,8 @@ def followups(rng, i):
 
 
 def gen(rng, tier, mult=1):
+    for w in ((1, 3) if tier == "quick" else (1, 2, 3, 5, 8)):
+        yield {"kind": "overlap", "waiters": w, "proto": "http", "_meta": {"kind": "overlap"}}
     i = 0
     # 1. the full grid of the property's quantifier
     for sc in (2, 3, 4, 5):
